@@ -1,8 +1,61 @@
 import WhVerif.Model.C19
 import WhVerif.Model.C19Edit
 import WhVerif.Spec.C19
+import WhVerif.Lemmas.C19Lev
+import WhVerif.Lemmas.C19Edit
+/-!
+# C19 — property theorems (edit distance part)
+-/
 namespace WhVerif.Props.C19
-open WhVerif.C19
-theorem placeholder_lev_nil (t : List Nat) : Spec.lev [] t = t.length := by
-  unfold Spec.lev; rfl
+open WhVerif.C19 WhVerif.C19.Spec
+
+/-- `edit_distance(s, t)` (unbanded, `maxdiff = -1`) is the Levenshtein distance, for all byte strings:
+prefix/suffix trimming and the single-row DP included. -/
+theorem edit_distance_eq_lev (s t : List Nat) : editDistance s t (-1) = lev s t := by
+  obtain ⟨h1, h2, _, h4⟩ := trimmed_spec s t
+  unfold editDistance
+  simp only [ne_eq, not_true_eq_false, false_and, if_false, if_true]
+  rw [dpU_spec _ _ _ _ h1 h2]
+  exact h4
+
+/-- the banded variant, for every band `maxdiff ≠ -1` (every `maxdiff < -1` behaves like an empty band):
+the exact distance whenever it is at most the band, a value larger than the band otherwise. -/
+theorem banded_exact_or_larger (s t : List Nat) (maxdiff : Int) (hb : maxdiff ≠ -1) :
+    ((lev s t : Int) ≤ maxdiff → editDistance s t maxdiff = lev s t) ∧
+    (maxdiff < (lev s t : Int) → maxdiff < (editDistance s t maxdiff : Int)) := by
+  obtain ⟨h1, h2, h3, h4⟩ := trimmed_spec s t
+  have habs := absDiff_le_lev s t
+  unfold editDistance
+  by_cases hfar : (absDiff s.length t.length : Int) > maxdiff
+  · rw [if_pos ⟨hb, hfar⟩]
+    exact ⟨fun h => by omega, fun _ => by omega⟩
+  · rw [if_neg (fun h => hfar h.2), if_neg hb]
+    have he : (maxdiff.toNat : Int) = maxdiff := Int.toNat_of_nonneg (by omega)
+    have hd : absDiff s.length t.length ≤ maxdiff.toNat := by omega
+    unfold absDiff at hd
+    obtain ⟨b1, b2⟩ := dpB_spec _ _ _ _ maxdiff.toNat h1 h2 (by split at hd <;> omega) (by split at hd <;> omega)
+    rw [h4] at b1 b2
+    exact ⟨fun h => b1 (by omega), fun h => by have := b2 (by omega); omega⟩
+
+example : lev [1, 2, 3] [1, 3] = 1 := by simp [lev]
+
+/-- `lev` is 0 exactly on equal strings -/
+theorem lev_eq_zero_iff (s t : List Nat) : lev s t = 0 ↔ s = t := lev_eq_zero_iff' s t
+
+/-- consequently `edit_distance(s, t) == 0` iff the strings are equal -/
+theorem edit_distance_eq_zero_iff (s t : List Nat) : editDistance s t (-1) = 0 ↔ s = t := by
+  rw [edit_distance_eq_lev]; exact lev_eq_zero_iff' s t
+
+/-- the spec does not depend on the direction of the recursion: `lev` (recursion on the heads) satisfies
+the recursion on the last characters, the one the row DP uses -/
+theorem lev_snoc_rec (a b : Nat) (s t : List Nat) :
+    lev (s ++ [a]) (t ++ [b]) =
+      min (lev s t + (if a = b then 0 else 1)) (min (lev s (t ++ [b]) + 1) (lev (s ++ [a]) t + 1)) :=
+  lev_snoc_snoc a b s t
+
+/-- `lev` is symmetric and bounded by the lengths -/
+theorem lev_bounds (s t : List Nat) :
+    lev s t = lev t s ∧ absDiff s.length t.length ≤ lev s t ∧ lev s t ≤ max s.length t.length :=
+  ⟨lev_symm s t, absDiff_le_lev s t, lev_le_max s t⟩
+
 end WhVerif.Props.C19
